@@ -1,4 +1,4 @@
-import NbioVerif.Model.Scan
+import NbioVerif.Model.ScanChecked
 /-! The engine glue around the HTTP parser (nbhttp/engine.go): how the reads of one connection are fed to
     `Parser.Parse` in each I/O mode, and what happens on a parse error or a read error.
 
@@ -57,23 +57,29 @@ structure Conn (σ ε : Type) where
 /-- a fresh connection: new parser, nothing closed, empty trace -/
 def fresh (st0 : σ) : Conn σ ε := { pc := { st := st0, cache := [] } }
 
-/-- `Parser.Parse(data)` as the engine sees it: `net.ErrClosed` without events on a closed parser; nothing on empty
-    data; otherwise the ReadLimit test and the loop. Returns the parser, the events, and whether an error was returned. -/
-def parse (M : Machine σ ε) (limit : Nat) (pc : PC σ) (data : Bytes) : PC σ × List ε × Bool :=
-  if pc.closed then (pc, [], true)
-  else if data = [] then (pc, [], false)
-  else if pc.cache ≠ [] ∧ limit > 0 ∧ pc.cache.length + data.length > limit then (pc, [], true)
+/-- `Parser.Parse(data)` as the engine sees it: `net.ErrClosed` (code 1) without events on a closed parser; nothing on
+    empty data; otherwise `parseLC` (ReadLimit test + checked loop). Returns the parser, the events of the call, and
+    the error code if `Parse` returned an error. On an error the parser's own fields are left as they were. -/
+def parse (M : Machine σ ε) (limit : Nat) (pc : PC σ) (data : Bytes) : PC σ × List ε × Option Nat :=
+  if pc.closed then (pc, [], some 1)
+  else if data = [] then (pc, [], none)
   else
-    match implParse M pc.st pc.cache data [] with
-    | ⟨evs, .inl (st', cache')⟩ => ({ pc with st := st', cache := cache' }, evs, false)
-    | ⟨evs, .inr _⟩ => (pc, evs, true)
+    match parseLC M limit pc.st pc.cache data [] with
+    | ⟨evs, .inl (st', cache')⟩ => ({ pc with st := st', cache := cache' }, evs, none)
+    | ⟨evs, .inr e⟩ => (pc, evs, some e)
+
+/-- the glue every reader applies: `Parse`, and on an error `CloseAndClean` (parser state := Close). This is the
+    chained function "parse; on error close" whose silence after an error is `parseE_silent`. -/
+def parseE (M : Machine σ ε) (limit : Nat) (pc : PC σ) (data : Bytes) : PC σ × List ε × Option Nat :=
+  let r := parse M limit pc data
+  (if r.2.2.isSome then { r.1 with closed := true } else r.1, r.2.1, r.2.2)
 
 def emit (c : Conn σ ε) (evs : List ε) : Conn σ ε := { c with trace := c.trace ++ evs.map Obs.ev }
 
 /-- one `Parse` call on behalf of the connection: the callbacks go to the trace; returns whether `Parse` failed -/
 def feed (M : Machine σ ε) (limit : Nat) (c : Conn σ ε) (d : Bytes) : Conn σ ε × Bool :=
   let r := parse M limit c.pc d
-  (emit { c with pc := r.1 } r.2.1, r.2.2)
+  (emit { c with pc := r.1 } r.2.1, r.2.2.isSome)
 
 /-- nbio closes the connection and runs the engine's `OnClose`: `CloseAndClean`, `_onClose` -/
 def closeNB (c : Conn σ ε) : Conn σ ε :=
